@@ -148,6 +148,10 @@ func (dm *DagModifier) expandSparse(size int64) error {
 	if err != nil {
 		return err
 	}
+	// Ensure the grown root doesn't exceed identity hash limits
+	if pn, ok := nnode.(*mdag.ProtoNode); ok {
+		dm.ensureSafeProtoNodeHash(pn)
+	}
 	err = dm.dagserv.Add(dm.ctx, nnode)
 	if err != nil {
 		return err
